@@ -442,3 +442,29 @@ pub fn drive_c14(seed: u64, thorough: bool, out: &mut dyn Write) -> usize {
     }
     e.id
 }
+
+/// C02: the host applies + - * / % == and ordering directly to arbitrary values (all pairs of a pool).
+pub fn drive_c02pairs(seed: u64, thorough: bool, out: &mut dyn Write) -> usize {
+    let mut e = Emit { out, id: 0 };
+    let mut rng = Rng::new(seed);
+    let mut pool = cmp_pool();
+    let extra = if thorough { 60 } else { 25 };
+    for _ in 0..extra {
+        pool.push(gen::gen_any_value(&mut rng, 2, true));
+    }
+    for d in [chrono::Duration::MAX, chrono::Duration::MIN, chrono::Duration::nanoseconds(i64::MAX), chrono::Duration::nanoseconds(i64::MIN + 1)] {
+        pool.push(Value::Duration(d));
+    }
+    pool.push(Value::Timestamp(chrono::DateTime::<chrono::Utc>::MAX_UTC.fixed_offset()));
+    pool.push(Value::Timestamp(chrono::DateTime::<chrono::Utc>::MIN_UTC.fixed_offset()));
+    pool.push(Value::Function(Arc::new("size".into()), None));
+    for a in &pool {
+        for b in &pool {
+            for op in ["add", "sub", "mul", "div", "rem", "heq", "hcmp"] {
+                let o = host_apply(op, a, b);
+                e.rec(op, "host", a, b, "", o);
+            }
+        }
+    }
+    e.id
+}
